@@ -8,7 +8,8 @@ vars == <<vb, al, mos, kind, exp, impl>>      \* vb = <<minx, miny, w, h, W, H>>
 Init ==
   /\ vb \in {<<mx, my, w, h, W, H>> : mx \in Mins, my \in Mins, w \in Sizes, h \in Sizes, W \in DocSizes, H \in DocSizes}
   /\ al \in Aligns /\ mos \in MoS /\ kind \in VBKinds
-  /\ (kind # "ok" => (al = <<1, 1>> /\ mos = "absent" /\ vb[1] = vb[2]))       \* malformed kinds: one representative each
+  \* malformed kinds: the guards come before the aspect-ratio rules, whatever those say - default, none, and a slice alignment
+  /\ (kind # "ok" => (<<al, mos>> \in {<< <<1, 1>>, "absent">>, <<NoneAlign, "absent">>, <<NoneAlign, "slice">>, << <<0, 2>>, "slice">>} /\ vb[1] = vb[2]))
   /\ exp = IF kind = "ok" THEN Expected(vb[1], vb[2], vb[3], vb[4], vb[5], vb[6], al, mos) ELSE Identity
   /\ impl = Impl(vb[1], vb[2], vb[3], vb[4], vb[5], vb[6], al, mos)
 Next == FALSE /\ UNCHANGED vars
